@@ -9,7 +9,7 @@ echo "== existing tests WITH patch (agent's build dir)" >> $OUT
 if [ -d $D/_b ]; then (cd $D/_b && ctest -j8 --timeout 300 > /tmp/seed/$ID.ctest.log 2>&1; echo "passed=$(grep -c ' Passed ' /tmp/seed/$ID.ctest.log) failed=$(grep -cE '\*\*\*(Failed|Exception|Timeout)' /tmp/seed/$ID.ctest.log) notbuilt=$(grep -c 'Not Run' /tmp/seed/$ID.ctest.log)" >> $OUT; grep -E '\*\*\*(Failed|Exception|Timeout)' /tmp/seed/$ID.ctest.log | head -5 >> $OUT); fi
 echo "== check on /repo with the patch ($TIER)" >> $OUT
 cd /verif; git -C /repo apply $D/seed.patch || { echo "PATCH DOES NOT APPLY TO /repo" >> $OUT; exit 3; }
-( time ./check $ID --tier $TIER ) > /tmp/seed/$ID.check.log 2>&1; echo "check exit=$?" >> $OUT
+( time ./check $ID --tier $TIER ${UNIT:+--unit $UNIT} ) > /tmp/seed/$ID.check.log 2>&1; echo "check exit=$?" >> $OUT
 git -C /repo checkout -- . ; git -C /repo status --short | head -3 >> $OUT
 grep -E "^VIOLATION|^INCONCLUSIVE|^KNOWN|tier=" /tmp/seed/$ID.check.log | cut -c1-260 | head -12 >> $OUT
 cat $OUT
